@@ -639,6 +639,7 @@ theorem TCInv_closed : Closed TCInv where
   siteCnt := fun _ _ h => ⟨h.1, TInv_of_tview h.2 rfl⟩
   emitInj := fun _ _ _ _ _ h => ⟨h.1, TInv_of_tview h.2 rfl⟩
   clock := fun _ _ h => ⟨h.1, TInv_of_tview h.2 rfl⟩
+  lastFlush := fun _ _ h => ⟨h.1, TInv_of_tview h.2 rfl⟩
   gone := fun _ h => ⟨h.1, TInv_of_tview h.2 rfl⟩
   refresh := fun s h => ⟨CInv_closed.refresh s h.1, TInv_refresh h.2⟩
   allEmpty := fun s h => ⟨CInv_closed.allEmpty s h.1, TInv_allEmpty h.2⟩
